@@ -185,6 +185,20 @@ macro_rules! narrow_impl {
                     tp.rec(vmax(rp - rv) <= 64.0 * EPS * sz && vmax(rv - q2 * v) <= 64.0 * EPS * sz,
                         || format!("Quaternion<{}> q = {:?} p = {:?}: rotate_point = {:?}, rotate_vector(p - origin) = {:?}, q * v = {:?}", $tag, q2, p, rp, rv, q2 * v));
                 }
+                // |q|^2 so small that its reciprocal overflows while conj / |q|^2 is representable; and |q|^2 next to (not at) one
+                let half_min_exp = if EPS < 1.0e-10 { -514 } else { -66 };
+                for (k, u) in [(2.0 as S).powi(half_min_exp), (2.0 as S).powi(half_min_exp - 2), 1.0 + 4.5e-8, 1.0 - 3.0e-7, 1.0 + 4.0e-7, 1.0 + 1.0e-5].iter().enumerate() {
+                    for base in [[1.0 as S, -1.0, 1.0, 2.0], [0.0, 1.0, 0.0, 0.0], [1.0, 3.0e-4, 0.0, 0.0], [0.5, 0.5, -0.5, 0.5]] {
+                        // (at the tiny scales only bases whose squared length is an exactly representable subnormal)
+                        if k < 2 && base[1] == 3.0e-4 { continue; }
+                        let q = Quaternion::new(base[0], base[1], base[2], base[3]) * *u;
+                        let iv = Rotation::invert(&q);
+                        let (a, b) = (q * iv, iv * q);
+                        let tol = 64.0 * EPS;
+                        let ok = (a.s - 1.0).abs() <= tol && vmax(a.v) <= tol && (b.s - 1.0).abs() <= tol && vmax(b.v) <= tol;
+                        t.rec(ok, || format!("Quaternion<{}> q = {:?} (|q|^2 = {:e}): invert(q) = {:?}, q*invert(q) = {:?}", $tag, q, q.magnitude2(), iv, a));
+                    }
+                }
                 t.print();
                 tp.print();
             }
@@ -390,6 +404,32 @@ macro_rules! narrow_impl {
                             $tag, fv0, za, n, nf, -h, ng));
                     }
                 }
+                // windows that are huge compared with the focal distance's reciprocal (bottom-row entry 2 tan(fovy/2)/h tiny but
+                // not zero): still maps z = -n to -1 and z = -f to +1, and the window to [-1,1]^2
+                let tb = Tally::new(name("c10.planar_small_focal_reciprocal"));
+                for &(fv, h) in [(0.1 as S, 1.0e6 as S), (1.0e-3, 1.0e3), (0.5, 1.0e7), (1.0e-5, 10.0), (1.0, 3.0e7)].iter() {
+                    for &(nn, ff) in [(0.1 as S, 2.0 as S), (-0.05, 1.0), (1.0, 0.2)].iter() {
+                        let (n, f) = (nn * h, ff * h);
+                        let aspect = 1.5 as S;
+                        let m = match quiet(&|| planar(Rad(fv), aspect, h, n, f)) { Some(m) => m, None => continue };
+                        let c = m.transform_point(Point3::new(aspect * h / 4.0, -h / 4.0, -n));
+                        let d = m.transform_point(Point3::new(0.0, h / 8.0, -f));
+                        let w = m.transform_point(Point3::new(aspect * h / 2.0, h / 2.0, 0.0));
+                        let tol = 256.0 * EPS * (1.0 + (n.abs() + f.abs()) / (n - f).abs());
+                        tb.rec((c.z + 1.0).abs() <= tol && (d.z - 1.0).abs() <= tol && (w.x - 1.0).abs() <= tol && (w.y - 1.0).abs() <= tol,
+                            || format!("planar::<{}>(fovy = {:e}, aspect = 1.5, height = {:e}, near = {:e}, far = {:e}): z=-n -> {:e} (want -1), z=-f -> {:e} (want +1), window corner -> ({:e}, {:e}); bottom row {:?}",
+                                $tag, fv, h, n, f, c.z, d.z, w.x, w.y, m.row(3)));
+                    }
+                }
+                tb.print();
+                // exactly a half turn given in degrees is outside (0, pi) / inside |fovy| >= pi
+                let td = Tally::new(name("c10.half_turn_in_degrees_rejected"));
+                let p180 = std::panic::catch_unwind(|| perspective(Deg(180.0 as S), 1.5, 0.1, 100.0)).is_ok();
+                let q180 = std::panic::catch_unwind(|| planar(Deg(180.0 as S), 1.5, 2.0, 0.1, 100.0)).is_ok();
+                let r180 = std::panic::catch_unwind(|| planar(Deg(-180.0 as S), 1.5, 2.0, 0.1, 100.0)).is_ok();
+                let p179 = std::panic::catch_unwind(|| perspective(Deg(179.0 as S), 1.5, 0.1, 100.0)).is_ok();
+                td.rec(!p180 && !q180 && !r180 && p179, || format!("<{}>: perspective(Deg(180)) accepted: {}, planar(Deg(180)) accepted: {}, planar(Deg(-180)) accepted: {}, perspective(Deg(179)) accepted: {}", $tag, p180, q180, r180, p179));
+                td.print();
                 t.print();
                 tz.print();
                 tr.print();
@@ -601,6 +641,20 @@ macro_rules! narrow_impl {
                         }
                     }
                 }
+                let tn = Tally::new(name("c11.normalize_near_unit_length"));
+                for &k in [1.00009 as S, 0.99995, 1.0 + 3.0e-6, 1.0 - 2.0e-7, 1.0002, 1.0e-4, 3.0e-9].iter() {
+                    for base in [[0.6 as S, 0.0, 0.8, 0.0], [0.5, 0.5, 0.5, 0.5], [0.1, -0.7, 0.1, 0.7], [1.0, 0.0, 0.0, 0.0]] {
+                        let q = Quaternion::new(base[0], base[1], base[2], base[3]) * k;
+                        let v = Vector4::new(base[0], base[1], base[2], base[3]) * k;
+                        let v3_ = Vector3::new(base[0], base[1], base[2]) * k;
+                        let (nq, nv) = (q.normalize(), v.normalize());
+                        let n3 = if v3_.magnitude2() > 0.0 { v3_.normalize().magnitude() } else { 1.0 };
+                        tn.rec((nq.magnitude() - 1.0).abs() <= 8.0 * EPS && (nv.magnitude() - 1.0).abs() <= 8.0 * EPS && (n3 - 1.0).abs() <= 8.0 * EPS
+                            && (nq.s * q.magnitude() - q.s).abs() <= 8.0 * EPS * q.magnitude(),
+                            || format!("<{}> q = {:?}: |normalize(q)| = {:e}, |normalize(v4)| = {:e}, |normalize(v3)| = {:e}", $tag, q, nq.magnitude(), nv.magnitude(), n3));
+                    }
+                }
+                tn.print();
                 t.print();
             }
 
@@ -650,6 +704,30 @@ macro_rules! narrow_impl {
                         || format!("Quaternion<{}>::from_arc(src = {:?}, dst = {:?}) (src . dst = {:e}, angle {:e}) = {:?}: maps src/|src| to {:?}, want {:?}",
                             $tag, src, dst, src.dot(dst), th, qa, qa * a, d));
                 }
+                // from_arc on short and long inputs at clearly non-parallel directions (angle 0.3 .. pi - 0.3), with the product of
+                // the lengths well above the absolute tolerance of its parallel test (so outside the known short-vector finding):
+                // the result is a UNIT quaternion taking src/|src| onto dst/|dst|
+                let tl = Tally::new(name("c15.from_arc_lengths"));
+                let (lens, floor): ([S; 6], S) = if EPS < 1.0e-10 { ([1.0e-3, 1.0e-4, 1.0e-2, 1.0, 1.0e3, 30.0], 1.0e-9) } else { ([1.0e-2, 2.0e-2, 0.1, 1.0, 1.0e2, 30.0], 1.0e-4) };
+                for i in 0..n.min(1500) {
+                    let a = unit3(&mut s);
+                    let o = {
+                        let w = unit3(&mut s);
+                        let p = w - a * a.dot(w);
+                        if p.magnitude() < 0.2 { continue; }
+                        p.normalize()
+                    };
+                    let th = 0.3 + (std::f64::consts::PI - 0.6) * u(&mut s) as f64;
+                    let d = a * (th.cos() as S) + o * (th.sin() as S);
+                    let (la, lb) = (lens[(i % 6) as usize], lens[((i / 6) % 6) as usize]);
+                    if la * lb < floor { continue; }
+                    let q = Quaternion::from_arc(a * la, d * lb, None);
+                    let tolq = if EPS < 1.0e-10 { 1.0e-9 } else { 2.0e-4 };
+                    tl.rec((q.magnitude() - 1.0).abs() <= tolq && vmax(q * a - d) <= tolq,
+                        || format!("Quaternion<{}>::from_arc(src = {:?}, dst = {:?}) (lengths {:e}, {:e}, angle {:e} rad) = {:?} (|q| = {:e}): maps src/|src| to {:?}, want {:?}",
+                            $tag, a * la, d * lb, la, lb, th, q, q.magnitude(), q * a, d));
+                }
+                tl.print();
                 t.print();
                 ta.print();
             }
